@@ -42,8 +42,11 @@ build_id() {
 	local _d
 
 	_d="$(date '+%Y-%m-%d')"
-	_c="$(find "$1" -type d -name "${_d}*" | wc -l)"
-	printf '%s.%d\n' "${_d}" "$((_c + 1))"
+	# Favor the highest number in use, counting directories is not enough
+	# as older invocations from the same day could be gone by now.
+	_c="$(find "$1" -maxdepth 1 -type d -name "${_d}.*" |
+		sed -e 's/.*\.//' | sort -n | tail -1)"
+	printf '%s.%d\n' "${_d}" "$((${_c:-0} + 1))"
 }
 
 # build_init build-dir
